@@ -232,7 +232,7 @@ _START = shard("start", 3)
                "fsm:AE_*/DT_*/AR_*/AA_* (EVT_CONN_CLOSE triggers)"],
     bounds="the C05 bounds: start configuration enumerated (quick 13 + the acceptor from connection arrival via "
            "RequestHandler.handle, thorough 17 + 1); every schedule of exactly %d environment actions from an alphabet of %d "
-           "(quick) / 28 (thorough) actions followed by %d idle iterations.  Solver-enumerated." % (N, NA_QUICK, C05.IDLE_TAIL),
+           "(quick) / 30 (thorough) actions followed by %d idle iterations.  Solver-enumerated." % (N, NA_QUICK + 2, C05.IDLE_TAIL),
     stubs=R.STUBS + ["UserView contract automaton (as C05)", "Event.timestamp: pynetdicom.events.datetime replaced by a fixed clock",
                      "Association.start (thread start) suppressed inside RequestHandler.handle"],
     outside="histories longer than the bound; cross-thread ordering of handlers (one thread here); the close-exactly-once "
@@ -243,7 +243,7 @@ _START = shard("start", 3)
 def history_reactor(steps: List[int]) -> bool:
     """
     pre: len(steps) == N
-    pre: all(0 <= a < NA for a in steps)
+    pre: all(C05.in_alphabet(a) for a in steps)
     pre: _FIRST < 0 or steps[0] == _FIRST
     post: _ == True
     """
